@@ -15,6 +15,16 @@ CHECKS = {
          'structures. Exhaustive inside the stated range, sampled outside: held on the executions observed, not proved.',
     note=TRUSTED + 'vk/ref/refvlq.py (self-tested on the Source Map V3 examples at every start).',
     design='DESIGN.md section 3, C10'),
+ 'C03': dict(
+    technique='differential runtime monitor: real parse() vs an independent recursive-descent ES5.1 reference parser, exhaustive short token strings + grammar derivations + single-token mutants',
+    level='exploration',
+    text='Every input of the workload is given to the real parser and to refjs (a reference front end written from ECMA-262 5.1, '
+         'different parsing technique); acceptance and the canonical tree must agree. Exhaustive for all token strings of length<=3 '
+         '(thorough: 4) over a 27-token alphabet including a line break; sampled for grammar derivations (every generator alternative '
+         'forced round-robin; LALR productions reduced are counted via sys.monitoring) and their mutants. Held on what was observed.',
+    note=TRUSTED + 'vk/ref/refjs.py as oracle (cross-validated against acorn during development, self-tested on 7.9.2 examples at start); '
+         'Annex B forms / escaped identifiers are oracle_uncertain; inputs containing the trigger of an open known finding are skipped and counted.',
+    design='DESIGN.md section 3, C03'),
 }
 
 PENDING = 'monitor planned in DESIGN.md section 3 but not built yet in this round; no claim is made'
